@@ -3,6 +3,7 @@ package sim
 import (
 	"bytes"
 	"fmt"
+	"io"
 	"runtime"
 	"strconv"
 	"strings"
@@ -108,6 +109,9 @@ func (d *demux) Write(p []byte) (int, error) {
 func (d *demux) mine() *bytes.Buffer { return d.bufs[goid()] }
 
 type callerEnv struct {
+	baseOpts   []bcl.Option // one option slice with spare capacity, spread by every caller
+	fresh      *bcl.Prog    // a second shared Prog that nobody has executed before the callers start
+	freshOut   *demux
 	shared     *bcl.Prog
 	sharedDump []byte
 	out, log   *demux
@@ -137,6 +141,16 @@ func (e *callerEnv) doOp(op, arg int) string {
 		}()
 		switch op {
 		case 0:
+			if arg&8 != 0 {
+				// the caller's own option slice has spare capacity and is shared with the other callers
+				p, err := bcl.Parse(src, fmt.Sprintf("name-%d", arg), e.baseOpts...)
+				d := []byte{}
+				if err == nil {
+					d, _, _ = DumpProg(p)
+				}
+				res = digest("parse-sharedopts", errText(err), string(d))
+				return
+			}
 			m := ParseMem(src, "p.bcl", (arg>>2)&(OptDisasm|OptStats))
 			d := []byte{}
 			if m.Err == nil && m.Panic == "" {
@@ -372,6 +386,10 @@ func c12Callers(sc *Scenario) *Outcome {
 		return o
 	}
 	env.sharedDump, _, _ = DumpProg(env.shared)
+	env.baseOpts = make([]bcl.Option, 2, 8)
+	env.baseOpts[0], env.baseOpts[1] = bcl.OptLogger(io.Discard), bcl.OptOutput(io.Discard)
+	env.freshOut = &demux{bufs: map[uint64]*bytes.Buffer{}}
+	env.fresh, _ = bcl.Parse(sp.Src, "fresh.bcl", bcl.OptOutput(env.freshOut), bcl.OptLogger(io.Discard))
 	for i := 0; i < 3; i++ {
 		c2 := gen.DefaultCfg(r)
 		c2.Safe = true
@@ -400,6 +418,7 @@ func c12Callers(sc *Scenario) *Outcome {
 	ids := make(chan uint64, nc)
 	barrier := make(chan struct{})
 	got := make([][]string, nc)
+	firstExec := make([]string, nc)
 	var wg sync.WaitGroup
 	for c := 0; c < nc; c++ {
 		wg.Add(1)
@@ -407,6 +426,11 @@ func c12Callers(sc *Scenario) *Outcome {
 			defer wg.Done()
 			ids <- goid()
 			<-barrier
+			if env.fresh != nil {
+				// the very first executions of this Prog happen at the same time
+				bs, bd, err := bcl.Execute(env.fresh)
+				firstExec[c] = digest(RenderBlocks(bs), RenderBinding(bd), errText(err), env.freshOut.mine().String())
+			}
 			for _, cl := range lists[c] {
 				got[c] = append(got[c], env.doOp(cl.op, cl.arg))
 			}
@@ -415,10 +439,18 @@ func c12Callers(sc *Scenario) *Outcome {
 	for c := 0; c < nc; c++ {
 		id := <-ids
 		env.out.bufs[id], env.log.bufs[id] = &bytes.Buffer{}, &bytes.Buffer{}
+		env.freshOut.bufs[id] = &bytes.Buffer{}
 	}
 	close(barrier)
 	wg.Wait()
 	Beat()
+	for c := 1; c < nc; c++ {
+		if firstExec[c] != firstExec[0] {
+			o.viol("C12", "interference", "the first executions of one Prog, made concurrently, give different results",
+				fmt.Sprintf("caller %d and caller 0 executed a never-executed shared Prog at the same time and got different results", c), sc)
+			break
+		}
+	}
 	h := uint64(1469598103934665603)
 	opNames := []string{"Parse", "Interpret", "Execute(shared)", "Dump(shared)", "LoadProg+Execute", "Unmarshal", "ParseFile", "Bind(shared binding)"}
 	for c := range lists {
